@@ -376,7 +376,34 @@ func (t *T) allQueries() {
 	t.qAll()
 }
 
+// values are compared by identity (==), not by content: two distinct values that happen to look alike are two values
+func distinctValues(prop string) {
+	type v struct{ n int }
+	a, b, c := &v{7}, &v{7}, &v{8}
+	tr := topic.NewStandardTree()
+	tr.Add("a/b", a)
+	tr.Add("a/b", b)
+	tr.Add("a/+", c)
+	tr.Add("a/#", a)
+	check := func(what string, got []interface{}, want int) {
+		if len(got) != want {
+			w.Monitor(prop, "distinct-values-merged", fmt.Sprintf("%s returned %d values, expected %d: two distinct pointer values with equal contents are different values", what, len(got), want), []string{"Add(a/b,&{7}) Add(a/b,&{7}') Add(a/+,&{8}) Add(a/#,&{7})", what})
+		}
+	}
+	check("Get(a/b)", tr.Get("a/b"), 2)
+	check("Match(a/b)", tr.Match("a/b"), 3)
+	check("Search(a/#)", tr.Search("a/#"), 3)
+	check("All()", tr.All(), 3)
+	tr.Remove("a/b", b)
+	check("Get(a/b) after Remove of the second", tr.Get("a/b"), 1)
+	if g := tr.Get("a/b"); len(g) == 1 && g[0] != interface{}(a) {
+		w.Monitor(prop, "distinct-values-merged", "Remove(a/b, second) removed the first value", nil)
+	}
+	w.Count("distinct-values")
+}
+
 func c05(r *gen.Rng, tier string, shard, nshard int) {
+	distinctValues("C05")
 	ops := c05Ops()
 	depth := 2
 	if tier == "thorough" {
@@ -486,6 +513,7 @@ func main() {
 	r := gen.New(*seed*1000003 + uint64(*shard) + 77)
 	switch *prop {
 	case "C04":
+		distinctValues("C04")
 		c04(r, *tier, *shard, *nshard)
 	case "C05":
 		if *only != "conc" {
